@@ -43,7 +43,8 @@ def get_core_features(feature_model: FeatureModel) -> list[Feature]:
     while features:
         feature = features.pop()
         for relation in feature.get_relations():
-            if relation.is_mandatory():
+            # All the children are needed: mandatory features and groups [n..m] over n children
+            if relation.card_min == len(relation.children):
                 core_features.extend(relation.children)
                 features.extend(relation.children)
 
